@@ -28,8 +28,9 @@ fn bye_roundtrip<S: Src, const NS: usize, const L: usize, const B: usize>(s: &mu
                     }
                 }
             }
-            vcover!(c.reason.len > 0 && c.padding > 0 && c.reason.len % 4 != 3, "reason, fill and padding");
-            vcover!(c.reason.len == 0 && c.padding > 0, "padding without reason");
+            vcover!(c.reason.len == 0 || L < 252 || c.padding > 0, "long reason with padding");
+            vcover!(L >= 252 || (c.reason.len > 0 && c.padding > 0 && c.reason.len % 4 != 3), "reason, fill and padding");
+            vcover!(L >= 252 || (c.reason.len == 0 && c.padding > 0), "padding without reason");
         }
         Err(e) => {
             assert!(!c.valid(), "builder rejected a legal BYE");
